@@ -9,3 +9,13 @@ package printer
 //@   trusted
 //@   requires p != nil
 //@   modifies p.count
+//
+//@ func (*Printer).PrintDirectiveLn
+//@   trusted
+//@   requires p != nil
+//@   modifies p.count
+//
+//@ func (*Printer).UpdatePadding
+//@   trusted
+//@   requires p != nil
+//@   modifies p.padding
